@@ -117,7 +117,10 @@ func (s *Service) Start(ctx context.Context) error {
 	}
 
 	s.doStart.Do(func() {
-		defer s.isRunning.Store(true)
+		// isRunning is already true (set by the Swap above): storing
+		// it again here, after the goroutines have been launched,
+		// would overwrite the false stored by a Run that has already
+		// finished by then.
 		defer s.isStarted.Store(true)
 		ec := &s.ec
 		ehSignal := make(chan struct{})
